@@ -398,7 +398,9 @@ class Ctx:
         ev = dict(property_id=self.pid, tier=self.tier, seed=self.seed, level=self.level,
                   coverage=cov, assumptions=self.assumptions, wall_s=wall,
                   violations=len(self.violations))
-        evp = os.path.join(EVID, self.pid + ".json") if not getattr(self, "replay", None) else self.path("replay_evidence.json")
+        # evidence/<id>.json is only ever written by a run against /repo itself (not by --replay, not by OPUS_SRC=<scratch> runs)
+        evp = os.path.join(EVID, self.pid + ".json") if (not getattr(self, "replay", None) and REPO == "/repo") \
+            else os.path.join(BUILD, "scratch_evidence_%s_%d.json" % (self.pid, os.getpid()))
         with open(evp, "w") as f:
             json.dump(ev, f, indent=1, default=str)
             f.write("\n")
